@@ -232,6 +232,40 @@ func fastGet(s types.Store, k string) string {
 
 type finding struct{ key, what string }
 
+// history classes that must be generated (counted for the vacuity check): the index is switched on
+// again over a DB whose index is behind (stamp < latest version, i.e. versions were committed with the
+// index off) and still holds entries for keys the latest tree no longer has -- all of them (the latest
+// tree is empty) or some of them.
+var clsEmptied, clsPartly atomic.Int64
+
+func (w *world) noteToggleClass() {
+	rp := w.rawProj()
+	roots := rp["roots"].([]int64)
+	if len(roots) == 0 || rp["stamp"].(int64) >= roots[len(roots)-1] {
+		return
+	}
+	as := storebptree.StoreConstructor(dbm.NewPrefixDB(w.raw, []byte(storePrefix)), types.StoreOptions{Immutable: true}).(*storebptree.Store)
+	if err := as.LoadVersion(roots[len(roots)-1]); err != nil {
+		return
+	}
+	stale, live := 0, 0
+	for _, k := range w.cfg.Keys {
+		has := as.Has(nil, []byte(k))
+		if has {
+			live++
+		}
+		if e := rp["fast"].(map[string]any)[k].(map[string]any); e["val"] != "none" && !has {
+			stale++
+		}
+	}
+	switch {
+	case stale > 0 && live == 0:
+		clsEmptied.Add(1)
+	case stale > 0:
+		clsPartly.Add(1)
+	}
+}
+
 // flushProbe runs after the last step of a behaviour, on the real objects only: one more block that
 // writes an unrelated key and commits, then the scan again. Whatever an earlier step left staged
 // behind the model's back (a session that was abandoned but not discarded) becomes durable here and
@@ -259,8 +293,22 @@ func (w *world) flushProbe() (f *finding, reads int) {
 	roots = w.rawProj()["roots"].([]int64)
 	keys := w.cfg.Keys
 	w.cfg.Keys = append(append([]string{}, keys...), "p")
-	f, reads = w.scan(roots)
-	w.cfg.Keys = keys
+	defer func() { w.cfg.Keys = keys }()
+	if f, reads = w.scan(roots); f != nil {
+		return
+	}
+	// and once more through a store object opened afresh over the same DB (a restarted node)
+	if w.fast && w.cfg.Mode != "L" {
+		w.crash()
+		if ok, _ := w.open(true); ok {
+			f2, n2 := w.scan(roots)
+			reads += n2
+			if f2 != nil {
+				f2.key += ":after-restart"
+				f = f2
+			}
+		}
+	}
 	return
 }
 
@@ -419,6 +467,9 @@ func replay(cfg config, beh []mbt.Step) (o outcome) {
 			case "Crash":
 				w.crash()
 			case "Reopen":
+				if st.Bool("f") {
+					w.noteToggleClass()
+				}
 				ok, errText := w.open(st.Bool("f"))
 				if ok != st.Bool("ok") && o.drift == "" {
 					o.drift = fmt.Sprintf("step %d Reopen(fast=%v): load ok=%v (%s), model %v", i, st.Bool("f"), ok, errText, st.Bool("ok"))
@@ -508,14 +559,14 @@ func replay(cfg config, beh []mbt.Step) (o outcome) {
 			}
 		}
 	}
-	if o.drift == "" {
-		f, n := w.flushProbe()
-		o.reads += n
-		o.probes++
-		if f != nil {
-			f.what += " (after the behaviour's last step one more block wrote an unrelated key and committed)"
-			o.viol = f
-		}
+	// the probe runs whether or not the raw DB content still agrees with the model: a divergence there is
+	// guidance, the verdict is what the real store serves
+	f, n := w.flushProbe()
+	o.reads += n
+	o.probes++
+	if f != nil {
+		f.what += " (after the behaviour's last step one more block wrote an unrelated key and committed)"
+		o.viol = f
 	}
 	return
 }
@@ -565,7 +616,7 @@ func main() {
 		mbt.Die("%v", err)
 	}
 	var mu sync.Mutex
-	var steps, reads, replays, drifts, viol, flaky int64
+	var steps, reads, replays, drifts, driftViol, viol, flaky int64
 	var driftSamples []string
 	reported := map[string]int{}
 	nw := runtime.NumCPU() / 2
@@ -593,6 +644,9 @@ func main() {
 						continue
 					}
 					atomic.AddInt64(&viol, 1)
+					if o.drift != "" {
+						atomic.AddInt64(&driftViol, 1)
+					}
 					mu.Lock()
 					reported[o.viol.key]++
 					first := reported[o.viol.key] == 1
@@ -618,6 +672,7 @@ func main() {
 	}
 	wg.Wait()
 	mbt.Summary(map[string]any{"behaviours": len(behs), "replays": replays, "steps": steps, "scan_reads": reads, "drift": drifts,
-		"drift_samples": driftSamples, "violating": viol, "flaky": flaky, "violations_by_key": reported, "stuck_steps": stuckSteps.Load(), "fast_index_entries_found_by_reads": fastProbes.Load()})
+		"drift_samples": driftSamples, "violating": viol, "flaky": flaky, "violations_by_key": reported, "drift_with_violation": driftViol, "stuck_steps": stuckSteps.Load(),
+		"reopened_on_over_emptied_tree_with_stale_index": clsEmptied.Load(), "reopened_on_over_partly_removed_keys_with_stale_index": clsPartly.Load(), "fast_index_entries_found_by_reads": fastProbes.Load()})
 	mbt.Flush()
 }
